@@ -8,6 +8,7 @@ import (
 	"encoding/hex"
 	"encoding/json"
 	"fmt"
+	"io"
 	"math"
 	"math/big"
 	"os"
@@ -105,6 +106,13 @@ func join(items []string) string {
 }
 
 func genFloat(r *hx.Rng) float64 {
+	if r.Chance(1, 14) {
+		// outside / at the edge of the float32 range: overflow to +-Inf, underflow to (sub)normal or zero, the
+		// rounding boundary just above MaxFloat32, float32 subnormals, integers needing 25 bits (NaN / Inf cannot be
+		// carried by the JSON case description; byte strings cover those patterns)
+		return []float64{1e39, -1e300, 1e-46, -7e-46, 3e-39, math.MaxFloat32, math.MaxFloat32 * (1 + 1.0/(1<<25)), -math.MaxFloat32 * (1 + 1.0/(1<<24)),
+			math.Float64frombits(0x36A0000000000000), 16777217, -33554435}[r.Intn(11)]
+	}
 	switch r.Intn(7) {
 	case 0:
 		return float64(r.Range(-5, 5))
@@ -362,6 +370,7 @@ func readMeshCoqFrom(data []byte, load func() (*modeling.Mesh, error)) (string, 
 		}()
 		m, err = load()
 	}()
+	decoyCalls()
 	if err != nil {
 		return "None", fail
 	}
@@ -612,6 +621,31 @@ func genBytes(r *hx.Rng) []byte {
 	return b
 }
 
+// decoyCalls runs the four entry points on unrelated data.  It is called between obtaining a result (stl.Read's
+// *Binary, stl.ReadMesh's mesh) and looking at it: a result that shares memory with package-level state (pooled
+// or reused buffers) changes under it.
+var decoyFile = synthFile(bigFileDesc{N: 7, Seed: 4242})
+var decoyMesh = func() modeling.Mesh {
+	idx := make([]int, 21)
+	pos := make([]vector3.Float64, 21)
+	nr := make([]vector3.Float64, 21)
+	for j := range idx {
+		idx[j] = j
+		pos[j] = vector3.New(float64(j)+0.25, -float64(j), 1000+float64(j))
+		nr[j] = vector3.New(1, float64(j%3), -2)
+	}
+	return modeling.NewTriangleMesh(idx).SetFloat3Attribute(modeling.PositionAttribute, pos).SetFloat3Attribute(modeling.NormalAttribute, nr)
+}()
+
+func decoyCalls() {
+	defer func() { recover() }()
+	if b, err := stl.Read(bytes.NewReader(decoyFile)); err == nil {
+		stl.Write(io.Discard, *b)
+	}
+	stl.ReadMesh(bytes.NewReader(decoyFile))
+	stl.WriteMesh(io.Discard, decoyMesh)
+}
+
 func bytesCase(in []byte) hx.Case { return bytesCaseVia(in, readerSpec{}) }
 
 // bytesCaseVia: stl.Read through the reader of the spec, then stl.Write.  The case is judged on the effective input:
@@ -632,6 +666,7 @@ func bytesCaseVia(in []byte, rs readerSpec) hx.Case {
 	}()
 	done()
 	eff := effectiveInput(rs, in, delivered())
+	decoyCalls()
 	if err == nil {
 		var buf bytes.Buffer
 		if err := stl.Write(&buf, *bin); err == nil {
@@ -762,6 +797,7 @@ func bigMeshObsFrom(load func() (*modeling.Mesh, error)) (string, string) {
 		}()
 		m, err = load()
 	}()
+	decoyCalls()
 	if err != nil {
 		return "None", ""
 	}
@@ -816,6 +852,7 @@ func bigFileCase(d bigFileDesc) hx.Case {
 		bin, err = stl.Read(rdr)
 	}()
 	done()
+	decoyCalls()
 	// a failing reader: the effective input is the prefix it delivered (a cut file)
 	cut := d.Cut
 	if eff := effectiveInput(d.readerSpec, in, delivered()); len(eff) < len(in) {
@@ -1029,7 +1066,8 @@ func bigCases(run *hx.Run, r *hx.Rng) []hx.Case {
 	// meshes: unwelded identity, permuted (as many indices as vertices), welded over few vertices,
 	// as many vertices as triangles, three indices per vertex
 	ndir := func() int { return r.Range(-1, 5) }
-	mesh(bigMeshDesc{N: 4097, NV: 3 * 4097, A: 1, Seed: seed(), NDir: ndir(), Note: "unwelded identity"})
+	mesh(bigMeshDesc{N: 4097, NV: 3 * 4097, A: 1, Seed: seed(), NDir: r.Intn(6), Note: "unwelded identity, with normals"})
+	mesh(bigMeshDesc{N: 4097 + r.Intn(200), NV: 97, A: 5, B: 1, C: 2, Seed: seed(), NDir: r.Intn(6), Via: "file", Note: "welded, with normals, through stl.Save / stl.Load"})
 	mesh(bigMeshDesc{N: 4096, NV: 3 * 4096, A: 3*4096 - 1, C: 3*4096 - 1, Seed: seed(), NDir: ndir(), Note: "reversed: as many indices as vertices"})
 	mesh(bigMeshDesc{N: 4097, NV: 61, A: 7, B: 1, C: 3, Part: r.Intn(3), Seed: seed(), NDir: ndir(), Note: "welded over few vertices"})
 	mesh(bigMeshDesc{N: 4099, NV: 4099, A: 5, B: 2, C: 1, Seed: seed(), NDir: ndir(), Note: "as many vertices as triangles"})
@@ -1190,7 +1228,7 @@ func main() {
 				}
 			}
 			rs := pickReader(r, len(b))
-			run.Count("bytes:reader=" + rs.Kind)
+			run.Count("bytes:reader=" + rs.Kind + ".")
 			small = append(small, bytesCaseVia(b, rs))
 		case 3:
 			b := genBytes(r)
@@ -1207,7 +1245,7 @@ func main() {
 				run.Count("readmesh:trailing")
 			}
 			rs := pickReader(r, len(b))
-			run.Count("readmesh:reader=" + rs.Kind)
+			run.Count("readmesh:reader=" + rs.Kind + ".")
 			small = append(small, readCaseVia(b, rs))
 		}
 	}
